@@ -17,8 +17,8 @@ CORE = {
             "gen": [{"acts": ["bind", "unbind", "listbinds", "disconnect", "entrem"], "maxlen": 3, "prefix": "PrefixP1P2"},
                     {"acts": ["bind", "unbind"], "rich": ["bind"], "maxlen": 2, "prefix": "PrefixP1"},
                     {"acts": ["bind", "unbind"], "rich": ["unbind"], "maxlen": 2, "prefix": "PrefixP1"},
-                    {"acts": ["bind", "unbind", "listbinds"], "maxlen": 5, "prefix": "PrefixP1", "view": "ViewDepth"},
-                    {"acts": ["bind", "unbind", "disconnect", "entrem"], "maxlen": 3, "prefix": "PrefixP1P2", "view": "ViewDepth"}],
+                    {"acts": ["bind", "unbind", "listbinds"], "tiny": ["bind", "unbind"], "maxlen": 4, "prefix": "PrefixP1", "view": None},
+                    {"acts": ["bind", "unbind", "disconnect", "entrem"], "maxlen": 4, "prefix": "PrefixP1P2", "ghost": 2}],
             "sim": [{"acts": DISC + ["bind", "unbind", "listbinds", "entrem", "entadd"], "rich": ["unbind", "listbinds"], "maxlen": 16, "num": 150}],
             "cap": 40000,
         },
@@ -44,7 +44,7 @@ CORE = {
             "gen": [{"acts": ["sub", "unsub", "listsubs", "disconnect", "entrem", "setdata"], "maxlen": 2, "prefix": "PrefixP1P2"},
                     {"acts": ["sub", "unsub"], "rich": ["sub"], "maxlen": 2, "prefix": "PrefixP1"},
                     {"acts": ["sub", "unsub"], "rich": ["unsub"], "maxlen": 2, "prefix": "PrefixP1"},
-                    {"acts": ["sub", "unsub", "listsubs"], "maxlen": 4, "prefix": "PrefixP1", "view": "ViewDepth"},
+                    {"acts": ["sub", "unsub", "listsubs"], "tiny": ["sub", "unsub"], "maxlen": 4, "prefix": "PrefixP1", "view": None},
                     {"acts": ["sub", "unsub", "setdata", "bind", "write"], "maxlen": 3, "prefix": "PrefixP1P2"}],
             "sim": [{"acts": DISC + ["sub", "unsub", "listsubs", "entrem", "entadd", "setdata", "bind", "write"], "rich": ["unsub", "listsubs"], "maxlen": 20, "num": 150}],
             "cap": 40000,
@@ -70,7 +70,7 @@ CORE = {
             "mc": [{"acts": DISC + ["sub", "bind", "lsub", "lbind", "entrem", "entadd", "setdata"], "maxlen": 7}],
             "gen": [{"acts": ["sub", "bind", "lsub", "lbind", "disconnect", "entrem", "setdata", "write", "listsubs", "listbinds"], "maxlen": 3, "prefix": "PrefixP1P2"},
                     {"acts": DISC + ["sub", "bind", "lsub", "entrem", "entadd"], "rich": ["disconnect", "entrem", "entadd"], "maxlen": 4, "prefix": "PrefixP1"},
-                    {"acts": ["sub", "bind", "lbind", "disconnect", "entrem"], "maxlen": 3, "prefix": "PrefixP1P2", "view": "ViewDepth"}],
+                    {"acts": ["sub", "bind", "disconnect", "entrem"], "maxlen": 3, "prefix": "PrefixP1P2", "ghost": 2}],
             "sim": [{"acts": DISC + ["sub", "unsub", "bind", "unbind", "lsub", "lbind", "lunsub", "lunbind", "entrem", "entadd", "setdata", "write", "listsubs", "listbinds"],
                      "rich": ["disconnect", "entrem", "entadd", "lsub", "lbind", "lunsub", "lunbind"], "maxlen": 25, "num": 200}],
             "cap": 40000,
@@ -97,7 +97,7 @@ CORE = {
                    {"acts": ["bind", "unbind", "write", "disconnect"], "rich": ["write"], "maxlen": 3, "prefix": "PrefixP1P2"}],
             "gen": [{"acts": ["bind", "unbind", "disconnect", "entrem", "entadd", "write", "sub"], "maxlen": 3, "prefix": "PrefixP1P2"},
                     {"acts": ["bind", "write"], "rich": ["write"], "maxlen": 2, "prefix": "PrefixP1"},
-                    {"acts": DISC + ["bind", "unbind", "entrem", "write"], "maxlen": 4, "prefix": "PrefixP1", "view": "ViewDepth"}],
+                    {"acts": DISC + ["bind", "unbind", "entrem", "write"], "maxlen": 5, "prefix": "PrefixP1", "ghost": 2}],
             "sim": [{"acts": DISC + ["bind", "unbind", "entrem", "entadd", "write", "sub", "setdata"], "rich": ["disconnect"], "maxlen": 25, "num": 200}],
             "cap": 40000,
         },
